@@ -123,6 +123,7 @@ type Failure struct {
 	Size     int             `json:"size"`
 	Case     json.RawMessage `json:"case"`
 	Trace    []string        `json:"trace,omitempty"`
+	Known    string          `json:"known,omitempty"` // id of the listed known finding whose shape the case contains
 }
 
 var (
@@ -138,6 +139,15 @@ func RecordFailure(f *Failure) {
 	if cur == nil || f.Size < cur.Size {
 		failBest[f.Check] = f
 	}
+}
+
+// TakeFailure removes and returns the smallest recorded failure of the check.
+func TakeFailure(check string) *Failure {
+	failMu.Lock()
+	defer failMu.Unlock()
+	f := failBest[check]
+	delete(failBest, check)
+	return f
 }
 
 // FlushFailure writes the smallest recorded failure of the check to VERIF_FAIL_OUT (one JSON doc per line).
